@@ -296,6 +296,14 @@ func (e *Engine) mergeValue(c *Term, a, b Value) Value {
 	if b == nil {
 		return a
 	}
+	// an out-of-object read can only belong to an infeasible alternative (every access is bounds-checked
+	// against the slice length first): it is the neutral element of a merge
+	if u, ok := a.(Undef); ok && u.why == "oob" {
+		return b
+	}
+	if u, ok := b.(Undef); ok && u.why == "oob" {
+		return a
+	}
 	if _, ok := a.(Undef); ok {
 		return a
 	}
